@@ -368,7 +368,7 @@ def check_acceptance(code, text, n):
                     break
         elif R.bech32_decode(text) is not None:
             clause, kind = "bech32-address-rule", "segwit"
-        return BAD("accepts-invalid", "refused (no kind of %s produces this string; payload length %s)"
+        return BAD("accepts-invalid", "refused (no kind of %s produces this string; decoded length incl. prefix %s)"
                    % (code, "n/a" if data is None else len(data)),
                    "accepted: script %s, re-encodes as %s" % (show(s), show(re)), clause=clause, kind=kind)
     if not ok or all(s != R.script_for(k, p) for k, p in ref):
@@ -705,7 +705,8 @@ class Classify(Driver):
             form = ok and isinstance(back, bytes) and push_form_only(s, back)
             return BAD("rebuild-differs", "for_info(info_for_script(s)) == s = %s" % s.hex(),
                        "type %s rebuilds as %s" % (ty, show(back)),
-                       clause="classify-push-form" if form else "classify-rebuild", kind=ty)
+                       clause="classify-push-form" if form else "classify-rebuild",
+                       kind="multisig" if ty == "multisig" else "template", type=ty)   # two code paths: _info_from_multisig_script / match
         same = (rk == ty) or (rk, ty) in (("p2wpkh", "p2pkh_wit"), ("p2wsh", "p2sh_wit"))
         return OK("faithful:%s%s" % (ty, "" if same else ":wider-than-template"), n=2)
 
